@@ -140,7 +140,9 @@ class QueueDriver(InstructionGenerator):
         for v in sim.get_vehicles():
             act = type(v.vehicle_state).__name__
             r = rng.random()
-            plug = plugs[0] if rng.random() < 0.85 else rng.choice(plugs)
+            # mostly a plug the vehicle can use; now and then any plug of the station (wrong energy type included)
+            usable = [c for c in plugs if environment.chargers[c].energy_type in v.energy] or plugs
+            plug = usable[0] if rng.random() < 0.85 else rng.choice(plugs)
             if act == "ChargingStation":
                 if r < 0.14:
                     out.append(IdleInstruction(v.id))
@@ -231,8 +233,25 @@ def gen_queue_world(rng: random.Random, n_steps: int) -> Dict[str, Any]:
             c = c0 if k < 1 or rng.random() < 0.3 else rng.choice(near + close)
             soc = rng.choice([0.3, 0.6, 0.9, 0.999, 1.0])
         vehicles.append({"id": vid, "lat": c[0], "lon": c[1], "mech": "leaf_50", "soc": soc})
-    return {"name": "queue", "dt": dt, "start": 0, "end": dt * n_steps, "cancel": 600, "vehicles": vehicles, "requests": [],
-            "stations": stations, "bases": bases, "focus": "queue"}
+    w = {"name": "queue", "dt": dt, "start": 0, "end": dt * n_steps, "cancel": 600, "vehicles": vehicles, "requests": [],
+         "stations": stations, "bases": bases, "focus": "queue"}
+    variant = rng.choice(["plain", "plain", "fleet", "mixed"])
+    if variant == "fleet":
+        # a PUBLIC station used by fleet members and fleet-less vehicles alike (or a station of the fleet all belong to)
+        members = [v["id"] for v in vehicles if rng.random() < 0.5] or [vehicles[0]["id"]]
+        if rng.random() < 0.3:
+            w["fleets"] = {"fa": {"vehicles": [v["id"] for v in vehicles], "stations": ["s1"], "bases": []}}
+        else:
+            w["fleets"] = {"fa": {"vehicles": members, "stations": [], "bases": []}}
+    elif variant == "mixed":
+        # a station that also sells petrol, and combustion vehicles among the customers
+        stations[0]["plugs"] = [(plug, 1, True), ("GAS_PUMP", 1, True)]
+        for v in vehicles:
+            if rng.random() < 0.4:
+                v["mech"] = "toyota_corolla"
+                v["soc"] = rng.choice([0.05, 0.3, 0.6, 0.97])
+    w["variant"] = variant
+    return w
 
 
 def gen_fleet_world(rng: random.Random, n_steps: int) -> Dict[str, Any]:
@@ -555,10 +574,15 @@ def gen_tie_world(rng: random.Random, n_steps: int) -> Dict[str, Any]:
          "stations": stations, "bases": bases, "prices": prices, "price_key": "geoid", "focus": "ties",
          "schedules": [("day", _hms(dt * 6), _hms(dt * (n_steps - 5)))], "rate": (3.0, 0.0, 3.0),      # equal request values
          "dispatcher": {"charging_range_km_threshold": 20, "charging_range_km_soft_threshold": 60}}
+    if rng.random() < 0.7:
+        # one lot listed as several stations (one per operator): candidates of exactly equal rank inside ONE search cell
+        twins = [dict(stations[0], id="sa_twin"), dict(stations[0], id="a_lot")]
+        stations.extend(twins)
+        if use_fleets:
+            fl["fa"]["stations"].append("sa")
+            fl["fb"]["stations"].append("sa_twin")          # a_lot stays public
     if use_fleets:
         w["fleets"] = fl
-        for s_ in stations:
-            pass
     return w
 
 
